@@ -3,7 +3,7 @@
    any k for the repaired reader).  Not covered here (bounded theorems in Proofs.v instead): histories that
    contain ReadNextTailSecond calls, and byte flips. *)
 From Coq Require Import ZArith List Bool Lia.
-From SH Require Import Common.Wrap Gen.DiskCacheConsts DiskCache.Model DiskCache.Spec DiskCache.Format DiskCache.Inv DiskCache.Steps.
+From SH Require Import Common.Wrap Gen.DiskCacheConsts DiskCache.Model DiskCache.Spec DiskCache.Format DiskCache.Inv DiskCache.Steps DiskCache.Tail.
 Import ListNotations.
 Open Scope Z_scope.
 
@@ -13,13 +13,12 @@ Variable rep : bool.
 Hypothesis crc_range : forall d, 0 <= crc d < two32.
 
 (* the guards: times are uint32; an erase torn after exactly 3 bytes only for the repaired reader (F-C09);
-   tail reads and byte flips are outside this theorem *)
+   byte flips are outside this theorem *)
 Definition op_ok (o : op) : Prop :=
   match o with
   | OPut t _ _ => 0 <= t < two32
   | OPutTorn t _ _ _ => 0 <= t < two32
   | OEraseTorn _ k => k = 3 -> rep = true
-  | OTail => False
   | OCorrupt _ _ _ => False
   | _ => True
   end.
@@ -47,6 +46,9 @@ Proof.
       unfold abs, a_erase. simpl. rewrite A', L'. reflexivity.
     + exists g. assert (E : erase st id = st) by (unfold erase; rewrite (I_known _ _ _ _ I), K; reflexivity).
       rewrite E. split; auto. unfold abs, a_erase. simpl. rewrite (noid_filter_aents crc _ _ K). reflexivity.
+  - (* tail *)
+    destruct (tail_inv crc rep crc_range st g I) as [st' [t [i [g' [E [I' A']]]]]].
+    simpl. rewrite E, A'. eexists; eexists. split; [reflexivity|]. split; [reflexivity|]. exists g'. auto.
   - (* sizes *)
     simpl. destruct (sizes st) as [t u]. simpl. eexists; eexists. split; [reflexivity|]. split; [exact Logic.I|]. exists g. auto.
   - (* disk *)
@@ -147,6 +149,100 @@ Proof.
   - pose proof (fknown_file crc (gf_name f) 0 (gf_recs f)) as FF. rewrite Fk in FF. inversion FF; subst. auto.
 Qed.
 
+(* ---------- what a start re-reads ---------- *)
+Definition unread (e : aent) : bool := match a_id e with None => true | Some _ => false end.
+Definition fresh (id : Z) (l : list aent) : Prop := Forall (fun e => a_id e <> Some id) l.
+
+Lemma assign_first_spec id : forall l, fresh id l ->
+  match assign_first id l with
+  | None => filter unread l = []
+  | Some (l', t) => exists e, filter unread l = e :: filter unread l' /\ t = a_time e /\
+                              find (has_id id) l' = Some (AE (Some id) (a_time e) (a_body e))
+  end.
+Proof.
+  induction l as [|e r IH]; intros F; [reflexivity|]. inversion F as [|? ? Fe Fr]; subst.
+  cbn [assign_first]. destruct (a_id e) as [j|] eqn:E.
+  - assert (Ue : unread e = false) by (unfold unread; rewrite E; reflexivity).
+    assert (He : has_id id e = false).
+    { unfold has_id. rewrite E. destruct (j =? id) eqn:J; auto. apply Z.eqb_eq in J. congruence. }
+    specialize (IH Fr). destruct (assign_first id r) as [[r' t]|].
+    + destruct IH as [e0 [H1 [H2 H3]]]. exists e0. cbn [filter find]. rewrite Ue, He. auto.
+    + cbn [filter]. rewrite Ue. exact IH.
+  - assert (Ue : unread e = true) by (unfold unread; rewrite E; reflexivity).
+    exists e. cbn [filter find]. rewrite Ue. unfold unread at 1. cbn [a_id]. unfold has_id. cbn [a_id]. rewrite Z.eqb_refl. auto.
+Qed.
+
+Lemma fents_id_known n : forall l p e j, In e (fents l) -> a_id e = Some j -> In j (map fst (fknown crc n p l)).
+Proof.
+  induction l as [|r l IH]; intros p e j H E; [contradiction|].
+  unfold fents in H. cbn [filter] in H. cbn [fknown]. rewrite map_app, in_app_iff.
+  destruct (live r).
+  - cbn [map] in H. destruct H as [<-|H].
+    + left. unfold to_ent in E. cbn [a_id] in E. rewrite E. simpl. auto.
+    + right. eapply IH; eauto.
+  - right. eapply IH; eauto.
+Qed.
+
+Lemma aents_id_known : forall g e j, In e (aents g) -> a_id e = Some j -> In j (map fst (gknown crc g)).
+Proof.
+  induction g as [|f g IH]; intros e j H E; [contradiction|].
+  change (aents (f :: g)) with (fents (gf_recs f) ++ aents g) in H.
+  change (gknown crc (f :: g)) with (fknown crc (gf_name f) 0 (gf_recs f) ++ gknown crc g).
+  rewrite map_app, in_app_iff. apply in_app_iff in H. destruct H as [H|H].
+  - left. eapply fents_id_known; eauto.
+  - right. eapply IH; eauto.
+Qed.
+
+Lemma inv_fresh st g : Inv crc rep st g -> fresh (s_last_id st + 1) (aents g).
+Proof.
+  intros I. apply Forall_forall. intros e He E.
+  pose proof (aents_id_known g e _ He E) as K. apply in_map_iff in K. destruct K as [p [Ep Hp]].
+  pose proof (I_idrange _ _ _ _ I) as R. rewrite Forall_forall in R. specialize (R p Hp). lia.
+Qed.
+
+Lemma drain_inv : forall fuel st g, Inv crc rep st g -> (length (filter unread (aents g)) < fuel)%nat ->
+  snd (drain crc rep fuel st) = map (fun e => (a_time e, GOk (a_body e))) (filter unread (aents g)).
+Proof.
+  induction fuel as [|f IH]; intros st g I L; [lia|].
+  cbn [drain]. destruct (tail_inv crc rep crc_range st g I) as [st1 [t [i [g1 [E [I1 A1]]]]]]. rewrite E.
+  unfold a_tail, abs in A1. cbn [a_ents a_last] in A1.
+  pose proof (assign_first_spec (s_last_id st + 1) (aents g) (inv_fresh st g I)) as S.
+  destruct (assign_first (s_last_id st + 1) (aents g)) as [[l t0]|].
+  - destruct S as [e [H1 [H2 H3]]]. inversion A1. subst.
+    pose proof (I_last _ _ _ _ I) as Ll.
+    destruct (s_last_id st + 1 =? 0) eqn:Z0; [apply Z.eqb_eq in Z0; lia|].
+    rewrite (get_inv crc rep st1 g1 _ _ I1). unfold a_get, abs. cbn [a_ents]. rewrite H3.
+    cbn [a_time a_body]. rewrite Z.eqb_refl.
+    specialize (IH st1 g1 I1). rewrite H1 in L. cbn [length] in L. specialize (IH ltac:(lia)).
+    destruct (drain crc rep f st1) as [st3 rs]. cbn [snd] in *. rewrite H1. cbn [map]. rewrite IH. reflexivity.
+  - inversion A1. subst. cbn. rewrite S. reflexivity.
+Qed.
+
+Lemma filter_len {A} (P : A -> bool) l : (length (filter P l) <= length l)%nat.
+Proof. induction l as [|a l IH]; simpl; auto. destruct (P a); simpl; lia. Qed.
+
+Lemma aents_len g : (length (aents g) <= nrecs g)%nat.
+Proof.
+  induction g as [|f g IH]; [simpl; lia|].
+  change (aents (f :: g)) with (fents (gf_recs f) ++ aents g). change (nrecs (f :: g)) with (length (gf_recs f) + nrecs g)%nat.
+  rewrite app_length. unfold fents. rewrite map_length. pose proof (filter_len live (gf_recs f)). lia.
+Qed.
+
+(* "the cache re-reads exactly the seconds that were put and not erased, in write order, with identical bytes":
+   in every state satisfying the invariant, what the next start re-reads (tail until id 0, fetching every
+   second) is exactly the specification's list *)
+Lemma reread_inv st g : Inv crc rep st g -> reread crc rep st = expected (abs st g).
+Proof.
+  intros I. unfold reread, expected. destruct (restart_inv crc rep st g (inv_dinv _ _ _ _ I)) as [Ir Ar].
+  assert (U : filter unread (aents (grestart g)) = aents (grestart g)).
+  { rewrite aents_restart. generalize (aents g). intros l. induction l as [|e l IHl]; [reflexivity|].
+    cbn [map filter unread a_id]. f_equal. exact IHl. }
+  rewrite (drain_inv _ _ (grestart g) Ir).
+  - rewrite U, aents_restart, map_map. reflexivity.
+  - rewrite U. pose proof (aents_len (grestart g)) as A. pose proof (nrecs_disk crc (grestart g)) as D.
+    rewrite <- (I_disk _ _ _ _ Ir) in D. simpl in D. lia.
+Qed.
+
 End R.
 
 (* "it never returns erased seconds", at the level of the specification the cache refines *)
@@ -159,20 +255,22 @@ Qed.
 
 (* ---------- from the empty directory: every history of the covered operations ---------- *)
 Theorem refines_all_histories crc rep :
+  (forall d, 0 <= crc d < two32) ->
   forall ops, Forall (op_ok rep) ops ->
   exists s, a_run rep a_empty ops = Some s /\
             Forall2 agree (snd (run crc rep empty_shard ops)) (a_obs rep a_empty ops) /\
             exists g, Inv crc rep (fst (run crc rep empty_shard ops)) g /\
                       a_ents s = aents g /\ a_last s = s_last_id (fst (run crc rep empty_shard ops)).
 Proof.
-  intros ops Ok.
-  destruct (run_refines crc rep ops empty_shard [] (inv_empty crc rep) Ok) as [s [Ar [Fo [g [I A]]]]].
+  intros Hc ops Ok.
+  destruct (run_refines crc rep Hc ops empty_shard [] (inv_empty crc rep) Ok) as [s [Ar [Fo [g [I A]]]]].
   exists s. split; [exact Ar|]. split; [exact Fo|]. exists g. split; [exact I|]. rewrite <- A. auto.
 Qed.
 
 (* the directory after any such history: files made of whole records plus possibly a torn tail, whose good
    records, in file-name and offset order, are exactly the seconds put and not erased, with their bytes *)
 Theorem directory_is_the_spec crc rep :
+  (forall d, 0 <= crc d < two32) ->
   forall ops, Forall (op_ok rep) ops ->
   exists s g, a_run rep a_empty ops = Some s /\
     s_disk (fst (run crc rep empty_shard ops)) = map (fenc crc) g /\
@@ -180,7 +278,7 @@ Theorem directory_is_the_spec crc rep :
     map (fun e => (a_time e, a_body e)) (a_ents s) =
     flat_map (fun f => map (fun r => (gr_time r, gr_body r)) (filter live (gf_recs f))) g.
 Proof.
-  intros ops Ok. destruct (refines_all_histories crc rep ops Ok) as [s [Ar [_ [g [I [A _]]]]]].
+  intros Hc ops Ok. destruct (refines_all_histories crc rep Hc ops Ok) as [s [Ar [_ [g [I [A _]]]]]].
   exists s, g. split; [exact Ar|]. split; [apply (I_disk _ _ _ _ I)|]. split.
   - eapply Forall_impl; [|apply (I_files _ _ _ _ I)]. intros f [X [Y _]]. auto.
   - rewrite A. clear. induction g as [|f g IH]; simpl; auto.
@@ -188,20 +286,33 @@ Proof.
 Qed.
 
 Theorem total_matches_files_all_histories crc rep :
+  (forall d, 0 <= crc d < two32) ->
   forall ops, Forall (op_ok rep) ops ->
   let st := fst (run crc rep empty_shard ops) in fst (sizes st) = disk_bytes st.
 Proof.
-  intros ops Ok. destruct (refines_all_histories crc rep ops Ok) as [s [_ [_ [g [I _]]]]].
+  intros Hc ops Ok. destruct (refines_all_histories crc rep Hc ops Ok) as [s [_ [_ [g [I _]]]]].
   simpl. eapply total_matches_files; eauto.
 Qed.
 
 Theorem unreferenced_files_are_gone_all_histories crc rep :
+  (forall d, 0 <= crc d < two32) ->
   forall ops, Forall (op_ok rep) ops ->
   let st := fst (run crc rep empty_shard ops) in
   forall n d, In (n, d) (s_disk st) ->
   s_writing st <> Some n -> s_reading st <> Some n -> ~ In n (map fst (s_waiting st)) ->
   exists id b, find_known id (s_known st) = Some b /\ b_file b = n.
 Proof.
-  intros ops Ok. destruct (refines_all_histories crc rep ops Ok) as [s [_ [_ [g [I _]]]]].
+  intros Hc ops Ok. destruct (refines_all_histories crc rep Hc ops Ok) as [s [_ [_ [g [I _]]]]].
   simpl. intros n d. eapply unreferenced_files_are_gone; eauto.
+Qed.
+
+(* after ANY history of the covered operations (now including tail reads), what the next start re-reads is
+   exactly the specification's list: the seconds put and not erased, in write order, with identical bytes *)
+Theorem reread_exact_all_histories crc rep :
+  (forall d, 0 <= crc d < two32) ->
+  forall ops, Forall (op_ok rep) ops ->
+  exists s, a_run rep a_empty ops = Some s /\ reread crc rep (fst (run crc rep empty_shard ops)) = expected s.
+Proof.
+  intros Hc ops Ok. destruct (refines_all_histories crc rep Hc ops Ok) as [s [Ar [_ [g [I [A _]]]]]].
+  exists s. split; [exact Ar|]. rewrite (reread_inv crc rep Hc _ g I). unfold expected, abs. simpl. rewrite A. reflexivity.
 Qed.
